@@ -80,10 +80,18 @@ fn tail_fill(kind: usize, buf: &mut [u8]) {
                 buf[6] = 0x00;
             }
         }
+        17 | 18 => {
+            // "01 00 06 00": an optional extension without data followed by the smallest protocol type, aligned on the
+            // type field of a complete packet (offset 2) resp. of a first fragment (offset 5) without label bytes
+            let pat = [0x01u8, 0x00, 0x06, 0x00];
+            for i in 2..n {
+                buf[i] = pat[(i + kind - 15) % 4];
+            }
+        }
         _ => {}
     }
 }
-const N_FILL: usize = 17;
+const N_FILL: usize = 19;
 
 struct Ck<'a> {
     rep: &'a Report,
@@ -172,12 +180,16 @@ pub fn corpus() -> Vec<Vec<u8>> {
             }
         }
         for chain in [vec![(0x0101u16, vec![])], vec![(0x0303, vec![1, 2, 3, 4]), (0x0011, vec![9])], vec![(0x0202, vec![5, 6]), (0x0042, vec![7, 8, 9])], vec![(0x05FF, vec![1, 2, 3, 4, 5, 6, 7, 8]), (0x0404, vec![1, 2, 3, 4, 5, 6]), (0x0010, vec![])], vec![(0x0202, vec![5, 6]), (0x0018, vec![1, 2, 3, 4, 5, 6, 7, 8])], vec![(0x0101, vec![]), (0x0011, vec![9]), (0x0303, vec![1, 2, 3, 4])], vec![(0x0011, vec![9]), (0x0018, vec![1, 2, 3, 4, 5, 6, 7, 8]), (0x0042, vec![7, 8, 9])], vec![(0x0100, vec![])], vec![(0x0500, vec![1, 2, 3, 4, 5, 6, 7, 8])]] {
-            let pt = crate::props::c06::pt_for_chain(&chain);
-            for b in [22usize, 30, 64] {
-                let mut enc = Encapsulator::new(DefaultCrc {});
-                let mut buf = vec![0u8; b];
-                if let Some(n) = do_encap_ext(&mut enc, &pd, 3, pt, l, &mut buf, &chain).len() {
-                    v.push(buf[..n.min(b)].to_vec());
+            let pt0 = crate::props::c06::pt_for_chain(&chain);
+            // chains that are followed by a real protocol type: also the boundary values of that field
+            let pts: Vec<u16> = if pt0 >= 0x0600 { vec![pt0, 0x0600] } else { vec![pt0] };
+            for pt in pts {
+                for b in [22usize, 30, 64] {
+                    let mut enc = Encapsulator::new(DefaultCrc {});
+                    let mut buf = vec![0u8; b];
+                    if let Some(n) = do_encap_ext(&mut enc, &pd, 3, pt, l, &mut buf, &chain).len() {
+                        v.push(buf[..n.min(b)].to_vec());
+                    }
                 }
             }
         }
@@ -200,7 +212,7 @@ pub fn corpus() -> Vec<Vec<u8>> {
 
 pub fn run(tier: Tier) -> i32 {
     let rep = Report::new("C05", tier);
-    rep.set_rule("complete product (receiver state) x (input buffer): states = all receiver snapshots reachable within 3 ops from 24 storage configurations (deduplicated); inputs = (a) all byte strings of length 0..=3, (b) fixed headers x buffer lengths {2..=24, pkt-1, pkt, pkt+1, pkt+9} x 17 adversarial tail fillers (quick: GSE lengths 0..=40 and 4080..=4095 of all 16 kind/label-type combinations; thorough: all 65536 headers in 12 states), (c) every truncation and every single-byte replacement by 00/FF/05 of a corpus of valid packets from the real encapsulator (all kinds, labels, extension chains incl. non-final mandatory extensions with data in non-first position), (d) every corpus packet with its GSE length field re-announced to every value 0..=actual (buffer whole and truncated); distinct = outcome classes");
+    rep.set_rule("complete product (receiver state) x (input buffer): states = all receiver snapshots reachable within 3 ops from 24 storage configurations (deduplicated); inputs = (a) all byte strings of length 0..=3, (b) fixed headers x buffer lengths {2..=24, pkt-1, pkt, pkt+1, pkt+9} x 19 adversarial tail fillers (quick: GSE lengths 0..=40 and 4080..=4095 of all 16 kind/label-type combinations; thorough: all 65536 headers in 12 states), (c) every truncation and every single-byte replacement by 00/FF/05 of a corpus of valid packets from the real encapsulator (all kinds, labels, extension chains incl. non-final mandatory extensions with data in non-first position), (d) every corpus packet with its GSE length field re-announced to every value 0..=actual (buffer whole and truncated); distinct = outcome classes");
     rep.assume("the statement's 'random and mutated-valid packets up to 8 KiB' is replaced by the structured enumerations (b) and (c): sampling is not a deciding step");
     rep.assume("receiver states beyond 3 ops from the listed configurations are not covered by this check (C16 and C08 explore the closure with their own oracles)");
     let states = receiver_states(&rep, 3, true);
